@@ -31,7 +31,10 @@ impl MonSink {
 
     pub fn report(&mut self, id: &str, opno: &str, property: &str, message: &str) {
         self.findings += 1;
-        let _ = writeln!(self.buffer, "M {id} {opno} {property} {message}");
+        // the buffer outlives the case: not part of what the case must release
+        crate::talloc::untracked(|| {
+            let _ = writeln!(self.buffer, "M {id} {opno} {property} {message}");
+        });
     }
 }
 
